@@ -41,14 +41,17 @@ def alignment_branch(repo: Repo) -> RuleRun:
         g.set("inverted", Obj(f"{name}.inverted", is_defined=defined))
         return g
 
-    for label, verts, defined, want in (
-        ("aligned & defined", (a, b), True, "G"),
-        ("anti-aligned & defined", (b, a), True, "G.inverted"),
-        ("aligned but undefined", (a, b), False, "own"),
-        ("anti-aligned but undefined", (b, a), False, "own"),
+    for label, verts, defined, want, own_defined in (
+        ("aligned & defined", (a, b), True, "G", False),
+        ("anti-aligned & defined", (b, a), True, "G.inverted", False),
+        ("aligned but undefined", (a, b), False, "own", False),
+        ("anti-aligned but undefined", (b, a), False, "own", False),
+        # grading again (second write, vertex moved in between): the copy is refreshed although the wire already has a grading
+        ("aligned & defined, wire graded before", (a, b), True, "G", True),
+        ("anti-aligned & defined, wire graded before", (b, a), True, "G.inverted", True),
     ):
         w = _wire(repo, "w", a, b)
-        own = grading("own", False)
+        own = grading("own", own_defined)
         w.set("grading", own)
         co = _wire(repo, "co", *verts)
         co.set("grading", grading("G", defined))
@@ -383,4 +386,46 @@ def grade_idempotent(repo: Repo) -> RuleRun:
 
 grade_idempotent.rule_id = "C04.GRADE-IDEMPOTENT"
 
-RULES = [alignment_branch, simple_only_if_equal, preserve_carried, results_before_copy, axis_direction, coincidence_complete, grade_idempotent]
+def axis_length(repo: Repo) -> RuleRun:
+    """'axis-level count from the AVERAGE length': the length a chopped axis resolves its count with is a symmetric function
+    of its four wires (their mean), and each wire then gets its own length - otherwise the count of the whole family depends on
+    which corner of the chopped block happens to be corner 0. Abstract run of WireChopManager.update on four wires of lengths
+    4, 8, 12, 16 in two orders (float arithmetic on this toy model only)."""
+    r = RuleRun(PROP, "C04.AXIS-LENGTH", floor=3, what="WireChopManager.update: axis grading length = mean of the four wire lengths (order-independent); each wire grading gets its own length")
+    upd = repo.func("items.wires.manager.WireChopManager.update")
+    cls = repo.cls("items.wires.manager.WireChopManager")
+    results = []
+    for order in ((4.0, 8.0, 12.0, 16.0), (16.0, 12.0, 4.0, 8.0)):
+        wires = []
+        for i, ln in enumerate(order):
+            w = Obj(f"w{i}")
+            w.set("edge", Obj(f"e{i}", length=ln))
+            w.set("length", ln)
+            w.set("grading", Obj(f"g{i}", length=0.0))
+            wires.append(w)
+        mgr = Obj("mgr", cls=cls)
+        mgr.set("wires", wires)
+        mgr.set("chops", [])
+        mgr.set("grading", Obj("axis_grading", length=0.0))
+        ev = Evaluator(repo=repo, module=upd.module)
+        ev.float_arith = True
+        _run(ev, upd, [mgr])
+        results.append(mgr.get("grading").get("length"))
+        own = [w.get("grading").get("length") for w in wires]
+        r.check(own == list(order), upd, f"wires {order}: every wire grading gets its own length", f"WireChopManager.update gives the wire gradings the lengths {own} for wires of length {order}", upd.node, key=f"wire-lengths:{order[0]}")
+    ok = all(isinstance(x, (int, float)) and abs(x - 10.0) < 1e-9 for x in results)
+    r.check(
+        ok,
+        upd,
+        "axis length = 10.0 = mean(4, 8, 12, 16) in both wire orders",
+        f"WireChopManager.update resolves the axis with length {results} for wires of length 4, 8, 12, 16 listed in two orders; expected their mean 10.0 both times - a single wire's length makes "
+        "the cell count of the whole family depend on the corner numbering of the chopped block",
+        upd.node,
+        key="axis-length",
+    )
+    return r
+
+
+axis_length.rule_id = "C04.AXIS-LENGTH"
+
+RULES = [alignment_branch, simple_only_if_equal, preserve_carried, results_before_copy, axis_direction, coincidence_complete, grade_idempotent, axis_length]
